@@ -62,3 +62,47 @@ fn beeper_levels() {
     kani::assert(s.left == exp && s.right == exp, "C19: beeper level follows the speaker (0.5) and MIC (0.1) bits");
     kani::assert(s.left.is_finite() && s.left >= 0.0 && s.left <= 0.6, "C19: beeper sample finite and bounded");
 }
+
+/// what the (stubbed) AY chip contributes to one sample
+static mut AY_SAMPLE: (f64, f64) = (0.0, 0.0);
+fn ay_gen_sample_stub(_ay: &mut crate::zx::sound::ay::ZXAyChip) -> crate::zx::sound::sample::SoundSample<f64> {
+    let (l, r) = unsafe { AY_SAMPLE };
+    crate::zx::sound::sample::SoundSample::new(l, r)
+}
+
+/// C19: one output sample = (beeper level when the beeper is enabled + AY sample when the AY is
+/// enabled) x master volume, per channel, narrowed to f32; finite and within the bound the volume
+/// implies; it is also remembered as the padding sample. The AY chip's own sample is a stub here
+/// (its value is C18's subject). BOUNDED in the float dimension: 4 volumes x 4 x 4 AY levels.
+#[kani::proof]
+#[kani::stub(libm::sqrt, sqrt_stub)]
+#[kani::stub(crate::zx::sound::ay::ZXAyChip::gen_sample, ay_gen_sample_stub)]
+fn mixer_sample_composition() {
+    let mut m = ZXMixer::new(true, true, ZXAYMode::Mono, 44100);
+    let (use_beeper, use_ay): (bool, bool) = (kani::any(), kani::any());
+    m.verif_set_sources(use_beeper, use_ay);
+    let (ear, mic): (bool, bool) = (kani::any(), kani::any());
+    m.beeper.change_state(ear, mic);
+    // symbolic float products did not finish in CBMC within 20 minutes: the volume and the AY pair
+    // are drawn from small sets of exactly representable values (which value is symbolic)
+    let vols: [f64; 4] = [0.0, 0.25, 0.5, 1.0];
+    let vi: usize = kani::any();
+    kani::assume(vi < 4);
+    let vol = vols[vi];
+    m.volume(vol);
+    let ays: [f64; 4] = [0.0, 0.125, 1.5, 3.0];
+    let (ai, aj): (usize, usize) = (kani::any(), kani::any());
+    kani::assume(ai < 4 && aj < 4);
+    let (al, ar) = (ays[ai], ays[aj]);
+    unsafe { AY_SAMPLE = (al, ar) };
+    let s = m.verif_gen_sample();
+    let beeper = if use_beeper { (if ear { 0.5 } else { 0.0 }) + (if mic { 0.1 } else { 0.0 }) } else { 0.0 };
+    let exp_l = ((beeper + if use_ay { al } else { 0.0 }) * vol) as f32;
+    let exp_r = ((beeper + if use_ay { ar } else { 0.0 }) * vol) as f32;
+    kani::assert(s.left == exp_l && s.right == exp_r, "C19: sample = (beeper + AY) x master volume per channel");
+    kani::assert(s.left.is_finite() && s.right.is_finite() && s.left >= 0.0 && s.left <= 3.6 && s.right <= 3.6,
+        "C19: sample finite and within the bound implied by the volume setting");
+    let last = m.verif_last_sample();
+    kani::assert(last.left == s.left && last.right == s.right, "C19: the frame-end padding repeats the last generated sample");
+    kani::cover!(s.left > 0.0);
+}
